@@ -280,6 +280,15 @@ def check_ugla_pair(ctx, pair):
         s.maxit, s.tol = c06.MAXIT, c06.TOL
         _readoff(ctx, c1, "ugla", iface, c06._exp_draw(s, xk[1]), *exp[1], sg("maxit_tol_assigned"), carry,
                  "after maxit / tol were assigned on the initialised sampler")
+        # round 11: `beta` (documented parameter, plain public attribute) assigned on the INITIALISED sampler: the step is the exact
+        # draw of the documented local Gaussian for the beta the sampler REPORTS (as the legacy stage below asserts for the legacy class)
+        sb = cuqi.experimental.mcmc.UGLA(posts[1], initial_point=x_init, beta=beta[2] if beta[2] != beta[1] else 2 * beta[1], **LOOSE)
+        sb.initialize()
+        sb.maxit, sb.tol = c06.MAXIT, c06.TOL
+        sb.beta = beta[1]
+        if sb.beta == beta[1]:
+            _readoff(ctx, c1, "ugla", iface, c06._exp_draw(sb, xk[1]), *exp[1], sg("beta_assigned"), carry,
+                     "after beta was assigned on the initialised sampler (constructed and initialised with another beta)")
         s.target = posts[2]
         s.beta = beta[2]
         try:
